@@ -689,3 +689,64 @@ func (w *World) findRenames() {
 		}
 	}
 }
+
+// boundCall is a call seen from a function in focus: made by the function itself, or by a
+// transparent helper once per call of that helper, with the helper's parameters replaced by
+// what that call passes.
+type boundCall struct {
+	In   ssa.CallInstruction // the call (inside the helper when made through one)
+	Args []ssa.Value
+	Val  ssa.Value // what the function in focus receives: the call's value, or the helper call's
+}
+
+// boundCallsIn lists the calls matching pats made by fn, one per execution: a helper that fn calls
+// twice contributes its inner call twice, each time with that call's arguments (one level).
+func boundCallsIn(fn *ssa.Function, pats ...string) []boundCall {
+	var out []boundCall
+	for _, b := range fn.Blocks {
+		for _, in := range b.Instrs {
+			c, ok := in.(ssa.CallInstruction)
+			if !ok {
+				continue
+			}
+			if isCallTo(in, pats...) {
+				out = append(out, boundCall{c, c.Common().Args, c.Value()})
+				continue
+			}
+			h := helperCall(in)
+			if h == nil || h.fn.Blocks == nil {
+				continue
+			}
+			for _, hb := range h.fn.Blocks {
+				for _, hin := range hb.Instrs {
+					if !isCallTo(hin, pats...) {
+						continue
+					}
+					hc := hin.(ssa.CallInstruction)
+					var args []ssa.Value
+					for _, a := range hc.Common().Args {
+						sub := a
+						for pi, p := range h.fn.Params {
+							if a == ssa.Value(p) && pi < len(c.Common().Args) {
+								sub = c.Common().Args[pi]
+							}
+						}
+						args = append(args, sub)
+					}
+					// the helper's caller receives this call's value only when the helper returns it as it is
+					var val ssa.Value
+					if hv := hc.Value(); hv != nil && c.Value() != nil {
+						val = c.Value()
+						for _, rb := range h.fn.Blocks {
+							if ret, isRet := rb.Instrs[len(rb.Instrs)-1].(*ssa.Return); isRet && (len(ret.Results) != 1 || ret.Results[0] != ssa.Value(hv)) {
+								val = nil
+							}
+						}
+					}
+					out = append(out, boundCall{hc, args, val})
+				}
+			}
+		}
+	}
+	return out
+}
